@@ -102,11 +102,11 @@ CHECKS['C08'] = dict(
 CHECKS['C10'] = dict(
    engine='cbmc', category='other', design_ref='DESIGN.md §9.14 C10/C11',
    technique='CBMC (wasm32 data model) on the bindings the real C generator produces for a value probe world, the harness acting as the host at the core-ABI boundary with hand-written Canonical-ABI encodings',
-   text='PARTIAL and BOUNDED (level "other"): for ONE probe world, export direction plus one import. Every generated C export wrapper hands the user function exactly the value the host lowered and stores exactly the value the user returned at its canonical offsets (4-byte pointers): record (incl. one with every scalar kind), tuple, option (also nested), result (with both, only an ok, only an error payload type), flags (3 and 32 members), enum and the numeric cases of a variant with a joined slot over their full domains, list<string> returned by an import, each under three generator configurations (default, --no-sig-flattening, --string-encoding utf16); a variant { f32, u64, f64 } over every bit pattern through an export and through an import (the host lifting the joined i64 slot as the canonical ABI does); string, list<u32>, list<tuple<u8,u32,u8>>, the variant\'s string case, a record with string and list fields, result<string, u32> and list<string> for bounded lengths.',
+   text='PARTIAL and BOUNDED (level "other"): for ONE probe world, export direction plus one import. Every generated C export wrapper hands the user function exactly the value the host lowered and stores exactly the value the user returned at its canonical offsets (4-byte pointers): record (incl. one with every scalar kind), tuple, option (also nested), result (with both, only an ok, only an error payload type), flags (3 and 32 members), enum and the numeric cases of a variant with a joined slot over their full domains, list<string> returned by an import, a string and a list<u32> passed to an import with arbitrary pointer and length (every length, not a bounded one), each under three generator configurations (default, --no-sig-flattening, --string-encoding utf16); a variant { f32, u64, f64 } over every bit pattern through an export and through an import (the host lifting the joined i64 slot as the canonical ABI does); string, list<u32>, list<tuple<u8,u32,u8>>, the variant\'s string case, a record with string and list fields, result<string, u32> and list<string> for bounded lengths.',
    note='BOUNDED: list/string lengths 0..=2 (list<string>: <= 1 element of <= 1 byte); one probe world; async and resource values not driven. Minimal hand-written ILP32 libc headers (no 32-bit headers in the sandbox); host side hand-written from CanonicalABI.md.')
 CHECKS['C11'] = dict(
    engine='cbmc', category='other', design_ref='DESIGN.md §9.14 C10/C11',
-   technique='CBMC (wasm32 data model, --pointer-check --bounds-check --memory-leak-check) on the generated C of two probe worlds (values; resources, generated with and without --autodrop-borrows): the allocator model decides leaks, double frees, use after free and out-of-bounds accesses, the harness as host records every resource.drop / new / rep; plus a comparison of every __export_name__ with an independent spec of the component model\'s export names',
+   technique='CBMC (wasm32 data model, --pointer-check --bounds-check --memory-leak-check) on the generated C of two probe worlds (values; resources, generated with and without --autodrop-borrows): the allocator model decides leaks, double frees, use after free and out-of-bounds accesses, the harness as host records every resource.drop / new / rep; plus a comparison of every __export_name__ and every __import_module__/__import_name__ pair with an independent spec of the component model\'s core names',
    text='PARTIAL and BOUNDED (level "other"): for string, list<u32>, list<tuple>, a variant with a string case and list<string> parameters and results of one probe world: after the export wrapper, the user function (which frees its arguments with the generated *_free helpers) and the generated post-return, nothing is leaked, nothing is freed twice, nothing is used after free or accessed out of bounds; post-return of the numeric variant cases frees nothing; the arguments of an import are passed without a copy, left untouched and remain the caller\'s to free. Resources (second probe world, default options and --autodrop-borrows yes): a borrow of an imported resource lent to an export - plain, in an option, in a variant whose other case is an integer in the same flat slot - is dropped by the bindings exactly once when autodrop is on and never when it is off, and no other handle is touched; own arguments/results and borrows of exported resources release nothing; each exported resource\'s destructor export calls that resource\'s user destructor exactly once and is exported under `<interface>#[dtor]<WIT name>` (single- and multi-word names); drop_own / drop_borrow / new / rep helpers make exactly one built-in call; every generated *_free helper of an interface that is both imported and exported releases all owned memory on both sides.',
    note='BOUNDED: lengths as C10; handles over all non-zero i32. Two genuine defects were found with this check and repaired (fix: 5f82076 [dtor] export name, fix: c7cd17d missing export-side free helpers; known-findings.txt). Not covered: async, resources inside lists, free helpers of types outside the probes; that the component encoder wires a recognised [dtor] export is wit-component\'s contract (read, not verified).')
 
